@@ -158,7 +158,7 @@ CONTRACTS = [GridIntegrate(), LevelToNumPoints(), EvaluateArea(True), EvaluateAr
 LEMMAS = [L.SmtLemma("sum-update", _sum_update_lemma, note="induction on the upper bound: base + step")]
 ASSUMPTIONS = ["numpy result vectors treated component-wise as reals (only vector-space operations are applied to them)",
                "grid.integrate is an uninterpreted function of (levelvector, start, end)",
-               "the whole evaluate_operation / compute_solutions / apply_remove pipeline and the re-entry of continue_adaptive_refinement: layer B"]
+               "apply_remove, the per-strategy evaluation hooks around compute_solutions and the re-entry of continue_adaptive_refinement: layer B"]
 
 
 # --------------------------------------------------------------------------- the accumulation pass: SpatiallyAdaptivBase.compute_solutions
